@@ -82,19 +82,165 @@ Ltac unwrap :=
   | |- context [wrap_s ?w ?e] => rewrite (wrap_s_small w e) by (try lia; range)
   end.
 
+(** [norm]: expose the GoSem operators and the machine arithmetic of Can/Data.v down to the same
+    [Z] operations, so that the final [reflexivity] compares (nearly) syntactically equal terms *)
+Ltac norm :=
+  change data_get with byte_at in *;
+  cbv beta zeta delta [go_or go_and go_xor go_andnot go_shl_u go_shl_s go_shr_u go_shr_s
+                       go_not_u go_not_s go_div_u go_rem_u go_div_s go_rem_s wrap_u
+                       shl64 shr64 sub64 add64 not64 mask64 u8 u16 u64 u64_of_i64 err_nil err_nonnil].
+
 (* @group can *)
 (** ** data.go, internal/reinterpret/reinterpret.go  (models: Can/Data.v) *)
 
 Lemma T_Data_PackLittleEndian_eq d :
   valid_data d -> Translated.Data_PackLittleEndian d = pack_le d.
 Proof.
-  intros Hd. unfold Translated.Data_PackLittleEndian. cbv zeta.
-  rewrite !data_get_byte_at. unwrap. reflexivity.
+  intros Hd. unfold Translated.Data_PackLittleEndian, pack_le. cbv zeta. unwrap. norm. reflexivity.
 Qed.
 
 Lemma T_Data_PackBigEndian_eq d :
   valid_data d -> Translated.Data_PackBigEndian d = pack_be d.
 Proof.
-  intros Hd. unfold Translated.Data_PackBigEndian. cbv zeta.
-  rewrite !data_get_byte_at. unwrap. reflexivity.
+  intros Hd. unfold Translated.Data_PackBigEndian, pack_be. cbv zeta. unwrap. norm. reflexivity.
+Qed.
+
+Lemma T_invertEndian_eq i : Translated.invertEndian i = invert_endian i.
+Proof. reflexivity. Qed.
+
+Lemma T_Data_UnsignedBitsLittleEndian_eq d start length :
+  valid_data d ->
+  Translated.Data_UnsignedBitsLittleEndian d start length = ubits_le d start length.
+Proof.
+  intros Hd. unfold Translated.Data_UnsignedBitsLittleEndian, ubits_le. cbv zeta.
+  rewrite T_Data_PackLittleEndian_eq by assumption. reflexivity.
+Qed.
+
+Lemma T_Data_UnsignedBitsBigEndian_eq d start length :
+  valid_data d ->
+  Translated.Data_UnsignedBitsBigEndian d start length = ubits_be d start length.
+Proof.
+  intros Hd. unfold Translated.Data_UnsignedBitsBigEndian, ubits_be. cbv zeta.
+  rewrite T_Data_PackBigEndian_eq by assumption. rewrite T_invertEndian_eq. reflexivity.
+Qed.
+
+Lemma wrap_s64_u x : in_u 64 x -> wrap_s 64 x = i64_of_u64 x.
+Proof. intros H. unfold wrap_s, i64_of_u64. cbv zeta. rewrite Z.mod_small by exact H. reflexivity. Qed.
+
+(** [unwrap] + reinterpretation of in-range uint64 words as int64 *)
+Ltac unwrap64 :=
+  unwrap;
+  repeat match goal with
+  | |- context [wrap_s 64 ?e] => rewrite (wrap_s64_u e) by range
+  end.
+
+Lemma T_AsSigned_eq unsigned bits :
+  in_u 64 unsigned -> Translated.AsSigned unsigned bits = as_signed unsigned bits.
+Proof.
+  intros Hu. unfold Translated.AsSigned, as_signed. cbv zeta.
+  destruct (bits =? 8); [| destruct (bits =? 16); [| destruct (bits =? 32); [| destruct (bits =? 64)]]].
+  - rewrite wrap_s_wrap_u. unwrap. reflexivity.
+  - rewrite wrap_s_wrap_u. unwrap. reflexivity.
+  - rewrite wrap_s_wrap_u. unwrap. reflexivity.
+  - unwrap64. reflexivity.
+  - unwrap64.
+    match goal with |- context [(-1) * ?x] => replace ((-1) * x) with (- x) by lia end.
+    norm. reflexivity.
+Qed.
+
+Lemma T_AsUnsigned_eq signed bits : Translated.AsUnsigned signed bits = as_unsigned signed bits.
+Proof.
+  unfold Translated.AsUnsigned, as_unsigned. cbv zeta.
+  destruct (bits =? 8); [| destruct (bits =? 16); [| destruct (bits =? 32); [| destruct (bits =? 64)]]].
+  - rewrite wrap_u_wrap_s by lia. unwrap. reflexivity.
+  - rewrite wrap_u_wrap_s by lia. unwrap. reflexivity.
+  - rewrite wrap_u_wrap_s by lia. unwrap. reflexivity.
+  - reflexivity.
+  - unwrap. norm. reflexivity.
+Qed.
+
+Lemma ubits_le_in_u64 d s l : 0 <= s -> in_u 64 (ubits_le d s l).
+Proof.
+  intros Hs. unfold ubits_le. cbv zeta.
+  change (in_u 64 (go_and (go_shr_u 64 (pack_le d) s) (wrap_u 64 (shl64 1 l - 1)))).
+  apply go_and_range_u; [lia | | apply wrap_u_range; lia].
+  apply go_shr_u_range; [lia | lia | exact (pack_le_range d)].
+Qed.
+
+Lemma ubits_be_in_u64 d s l : in_u 64 (ubits_be d s l).
+Proof.
+  unfold ubits_be. cbv zeta.
+  set (lsb := u8 (u8 (invert_endian s - l) + 1)).
+  change (in_u 64 (go_and (go_shr_u 64 (pack_be d) lsb) (wrap_u 64 (shl64 1 l - 1)))).
+  apply go_and_range_u; [lia | | apply wrap_u_range; lia].
+  apply go_shr_u_range; [lia | | exact (pack_be_range d)].
+  unfold lsb, u8. apply Z.mod_pos_bound. lia.
+Qed.
+
+Lemma T_Data_SignedBitsLittleEndian_eq d start length :
+  valid_data d -> in_u 8 start ->
+  Translated.Data_SignedBitsLittleEndian d start length = sbits_le d start length.
+Proof.
+  intros Hd Hs. unfold Translated.Data_SignedBitsLittleEndian, sbits_le. cbv zeta.
+  rewrite T_Data_UnsignedBitsLittleEndian_eq by assumption.
+  apply T_AsSigned_eq. apply ubits_le_in_u64. unfold in_u in Hs. lia.
+Qed.
+
+Lemma T_Data_SignedBitsBigEndian_eq d start length :
+  valid_data d ->
+  Translated.Data_SignedBitsBigEndian d start length = sbits_be d start length.
+Proof.
+  intros Hd. unfold Translated.Data_SignedBitsBigEndian, sbits_be. cbv zeta.
+  rewrite T_Data_UnsignedBitsBigEndian_eq by assumption.
+  apply T_AsSigned_eq. apply ubits_be_in_u64.
+Qed.
+
+Lemma T_Data_UnpackLittleEndian_eq d packed :
+  valid_data d -> Translated.Data_UnpackLittleEndian d packed = unpack_le packed.
+Proof.
+  intros Hd. destruct (valid_data_inv d Hd) as (b0 & b1 & b2 & b3 & b4 & b5 & b6 & b7 & -> & _).
+  unfold Translated.Data_UnpackLittleEndian, unpack_le. cbv zeta.
+  unfold data_set. simpl (Z.to_nat _). cbn [list_set map]. norm. reflexivity.
+Qed.
+
+Lemma T_Data_UnpackBigEndian_eq d packed :
+  valid_data d -> Translated.Data_UnpackBigEndian d packed = unpack_be packed.
+Proof.
+  intros Hd. destruct (valid_data_inv d Hd) as (b0 & b1 & b2 & b3 & b4 & b5 & b6 & b7 & -> & _).
+  unfold Translated.Data_UnpackBigEndian, unpack_be. cbv zeta.
+  unfold data_set. simpl (Z.to_nat _). cbn [list_set map]. norm. reflexivity.
+Qed.
+
+Lemma T_Data_SetUnsignedBitsLittleEndian_eq d start length value :
+  valid_data d ->
+  Translated.Data_SetUnsignedBitsLittleEndian d start length value = set_ubits_le d start length value.
+Proof.
+  intros Hd. unfold Translated.Data_SetUnsignedBitsLittleEndian, set_ubits_le. cbv zeta.
+  rewrite T_Data_UnpackLittleEndian_eq, T_Data_PackLittleEndian_eq by assumption.
+  unwrap. norm. reflexivity.
+Qed.
+
+Lemma T_Data_SetUnsignedBitsBigEndian_eq d start length value :
+  valid_data d ->
+  Translated.Data_SetUnsignedBitsBigEndian d start length value = set_ubits_be d start length value.
+Proof.
+  intros Hd. unfold Translated.Data_SetUnsignedBitsBigEndian, set_ubits_be. cbv zeta.
+  rewrite T_Data_UnpackBigEndian_eq, T_Data_PackBigEndian_eq, T_invertEndian_eq by assumption.
+  unwrap. norm. reflexivity.
+Qed.
+
+Lemma T_Data_SetSignedBitsLittleEndian_eq d start length value :
+  valid_data d ->
+  Translated.Data_SetSignedBitsLittleEndian d start length value = set_sbits_le d start length value.
+Proof.
+  intros Hd. unfold Translated.Data_SetSignedBitsLittleEndian, set_sbits_le. cbv zeta.
+  rewrite T_AsUnsigned_eq. now apply T_Data_SetUnsignedBitsLittleEndian_eq.
+Qed.
+
+Lemma T_Data_SetSignedBitsBigEndian_eq d start length value :
+  valid_data d ->
+  Translated.Data_SetSignedBitsBigEndian d start length value = set_sbits_be d start length value.
+Proof.
+  intros Hd. unfold Translated.Data_SetSignedBitsBigEndian, set_sbits_be. cbv zeta.
+  rewrite T_AsUnsigned_eq. now apply T_Data_SetUnsignedBitsBigEndian_eq.
 Qed.
